@@ -723,10 +723,11 @@ func runTarget(c TargetCase, r *runlog.R) error {
 }
 
 var subTargets = runlog.Register(&runlog.Sub[TargetCase]{
-	Name: "unpack-targets",
-	Rule: "random target types nested up to 3 levels over 25 base types incl. unsupported ones (chan, func, complex, uintptr, map[int]T, non-empty interfaces, unsafe.Pointer, time.Time, [0]int, *Config, *interface{}, named string/int) with random config and validate tags (incl. malformed ones); each unpacked from a dictionary, a list and an empty config as zero value, pre-filled, by value, as nil, through pointer chains, twice, and with a global append policy; must return. Non-trivial: at least one call returns an error.",
-	Gen:  genTarget,
-	Run:  runTarget,
+	Name:    "unpack-targets",
+	Rule:    "random target types nested up to 3 levels over 25 base types incl. unsupported ones (chan, func, complex, uintptr, map[int]T, non-empty interfaces, unsafe.Pointer, time.Time, [0]int, *Config, *interface{}, named string/int) with random config and validate tags (incl. malformed ones); each unpacked from a dictionary, a list and an empty config as zero value, pre-filled, by value, as nil, through pointer chains, twice, and with a global append policy; must return. Non-trivial: at least one call returns an error.",
+	Gen:     genTarget,
+	Run:     runTarget,
+	Journal: true, // a target type that makes Unpack allocate without bound kills the worker before the watchdog fires
 })
 
 func TestUnpackTargets(t *testing.T) { subTargets.Check(t, 30000, 1500000) }
@@ -767,10 +768,11 @@ func runSource(c TargetCase, r *runlog.R) error {
 }
 
 var subSources = runlog.Register(&runlog.Sub[TargetCase]{
-	Name: "merge-sources",
-	Rule: "values (zero and filled with live channels, functions, non-nil pointers, one-element collections) of the same random types given to NewFrom and Merge directly, by pointer, as a map value and as a list element, under default/append/replace; the result is then read through every entry point; must return. Non-trivial: at least one call returns an error.",
-	Gen:  genTarget,
-	Run:  runSource,
+	Name:    "merge-sources",
+	Rule:    "values (zero and filled with live channels, functions, non-nil pointers, one-element collections) of the same random types given to NewFrom and Merge directly, by pointer, as a map value and as a list element, under default/append/replace; the result is then read through every entry point; must return. Non-trivial: at least one call returns an error.",
+	Gen:     genTarget,
+	Run:     runSource,
+	Journal: true,
 })
 
 func TestMergeSources(t *testing.T) { subSources.Check(t, 20000, 1500000) }
